@@ -333,6 +333,7 @@ class Contracts:
         self.preludes = []   # (tags, title, text)
         self.files = []
         self.aliases = {}
+        self.broadcasts = []
 
     def tags(self, text):
         out = []
@@ -350,7 +351,10 @@ class Contracts:
             ln = lines[i]
             if ln.startswith('=== '):
                 head = ln[4:].strip()
-                if head.startswith('alias '):
+                if head.startswith('broadcast '):
+                    self.broadcasts.append(head[len('broadcast '):].strip())
+                    cur = None
+                elif head.startswith('alias '):
                     m = re.match(r'alias (\w+)\s*=\s*(.*)$', head)
                     self.aliases[m.group(1)] = self.tags(m.group(2))
                     cur = None
@@ -820,6 +824,8 @@ class Extractor:
         for tags, title, lines in self.c.preludes:
             if 'TOP' in tags:
                 self.emit('// ---- prelude (top): %s\n%s\n' % (title, '\n'.join(lines)))
+        if self.c.broadcasts:
+            self.emit('broadcast use {%s};\n' % ', '.join(self.c.broadcasts))
         for spec in u['files']:
             self.do_file(spec)
         for tags, title, lines in self.c.preludes:
